@@ -5,7 +5,7 @@
 # On success copies patch.diff, seed_demo.rs, notes.md into /verif/seeded/<id>/ and writes meta.json.
 # usage: tools/confirm_seed.sh <id> <crate-of-demo> [--skip-suite]
 set -u
-ID="$1"; CRATE="$2"; WT="/tmp/seed-$ID"; OUT="$WT/out"
+ID="$1"; CRATE="$2"; WT="/tmp/seed${SEED_ROUND:-}-$ID"; OUT="$WT/out"
 [ -f "$OUT/patch.diff" ] && [ -f "$OUT/seed_demo.rs" ] || { echo "missing deliverables in $OUT"; exit 2; }
 export CARGO_TARGET_DIR="$WT/target" CARGO_NET_OFFLINE=true
 cd "$WT" || exit 2
@@ -37,11 +37,13 @@ OK=0
 [ $R_CLEAN = 0 ] && [ $R_PATCH != 0 ] && [ $COMPILED = 1 ] && { [ "$R_SUITE" = 0 ] || [ "$R_SUITE" = skipped ]; } && OK=1
 echo "== confirm $ID: clean_demo=$R_CLEAN patched_demo=$R_PATCH compiled=$COMPILED suite=$R_SUITE => $( [ $OK = 1 ] && echo CONFIRMED || echo REJECTED )"
 if [ $OK = 1 ]; then
-  D="/verif/seeded/$ID"; mkdir -p "$D"
+  D="/verif/seeded/$ID${SEED_ROUND:+-r$SEED_ROUND}"; mkdir -p "$D"
   cp "$OUT/patch.diff" "$OUT/seed_demo.rs" "$D/"; [ -f "$OUT/notes.md" ] && cp "$OUT/notes.md" "$D/"
   python3 - "$ID" "$CRATE" "$R_SUITE" "$(git rev-parse HEAD)" <<'PY'
 import json, sys, datetime
 pid, crate, suite, base = sys.argv[1:5]
+import os
+sfx = ('-r' + os.environ['SEED_ROUND']) if os.environ.get('SEED_ROUND') else ''
 json.dump({
   "property": pid,
   "base_commit": base,
@@ -51,7 +53,7 @@ json.dump({
                 "existing_suite_with_change": "all BASELINE stable_pass tests pass" if suite == "0" else suite,
                 "how": "tools/confirm_seed.sh in the seeding worktree: git checkout -- . ; demo ; git apply patch.diff ; demo ; tools/baseline.sh"},
   "detected_by": None
-}, open(f'/verif/seeded/{pid}/meta.json', 'w'), indent=1)
+}, open(f'/verif/seeded/{pid}{sfx}/meta.json', 'w'), indent=1)
 PY
 fi
 [ $OK = 1 ]
